@@ -147,8 +147,10 @@ def con_value(con, col_t, pool=0):
     raise ValueError(k)
 
 
+@contextlib.contextmanager
 def quiet():
-    return contextlib.redirect_stdout(io.StringIO())
+    with contextlib.redirect_stdout(io.StringIO()), contextlib.redirect_stderr(io.StringIO()):
+        yield
 
 
 def flag_abstract(v):
